@@ -760,6 +760,25 @@ func (fr *Frame) unop(in *ssa.UnOp, st *State, pc Term) {
 	}
 }
 
+// strLitExt assumes the extensionality instance for a string value compared
+// with a string literal (at most 64 bytes: the length for which strConst
+// states the bytes): if x has the literal's length and bytes, x is the literal.
+func (vc *VC) strLitExt(pc, x Term, c *ssa.Const) {
+	if c.Value == nil || c.Value.Kind() != constant.String {
+		return
+	}
+	lit := constant.StringVal(c.Value)
+	if len(lit) == 0 || len(lit) > 64 {
+		return
+	}
+	l := vc.strConst(lit)
+	conj := []Term{eq(T(SInt, "(slen %s)", x.S), intLit(int64(len(lit))))}
+	for i := 0; i < len(lit); i++ {
+		conj = append(conj, eq(T(SInt, "(sat %s %d)", x.S, i), intLit(int64(lit[i]))))
+	}
+	vc.assume(pc, implies(and(conj...), eq(x, l)))
+}
+
 func (vc *VC) wrapUnsigned(v Term, t types.Type) Term {
 	bits := intBits(t)
 	m := new(big.Int).Lsh(big.NewInt(1), uint(bits))
@@ -789,6 +808,16 @@ func (fr *Frame) binop(in *ssa.BinOp, st *State, pc Term) Term {
 			r = vc.arrayEq(x, y, arr)
 		} else {
 			r = eq(x, y)
+			if x.Sort == SStr {
+				// Go string equality is extensional; the abstract Str sort is
+				// not. For a comparison with a literal, state the ground
+				// instance: same length and same bytes as the literal => equal.
+				if c, ok := in.Y.(*ssa.Const); ok {
+					vc.strLitExt(pc, x, c)
+				} else if c, ok := in.X.(*ssa.Const); ok {
+					vc.strLitExt(pc, y, c)
+				}
+			}
 		}
 		if in.Op == token.NEQ {
 			r = not(r)
